@@ -10,7 +10,7 @@
 //! appending the very same RawEvent to a scratch BucketSegmentWriter with the same compression setting).
 //! `var`/`stored` are ORACLE values for the model; when a case is replayed they are recomputed and rewritten.
 //!
-//! Observed: `a0=<res> [a1=<res> ..] p=<res>` with res = `ok:<segments rolled since the fill>:<offset>,<offset>..`
+//! Observed: `a0=<res> [a1=<res> ..] [rd=ok|rd=BAD:..] p=<res>` (rd: the accepted events read back by id) with res = `ok:<segments rolled since the fill>:<offset>,<offset>..`
 //! | `full` | `big` | `other:<text>`.
 use std::path::{Path, PathBuf};
 use std::time::Duration;
@@ -185,10 +185,11 @@ impl World {
     async fn fill(&mut self, target: u64, scratch: &mut Scratch) -> Result<(), String> {
         if target == self.cur { return Ok(()); }
         if target < self.cur + MINF { return Err(format!("offset {} not reachable from {}", target, self.cur)); }
-        // one big incompressible filler leaving ~120 bytes (its stored length is predicted with the scratch writer and read back)
+        // one big incompressible filler leaving ~340 bytes (its stored length is predicted with the scratch writer and read
+        // back; any remainder >= 285 can be filled exactly with 95..136-byte records, so the prediction may be off by 50 bytes)
         if target - self.cur > 1500 {
             let eid = self.next_eid;
-            let mut plen = (target - self.cur) as usize - 120 - MINF as usize;
+            let mut plen = (target - self.cur) as usize - 340 - MINF as usize;
             if self.comp {
                 let pl = payload(eid, plen, 'r');
                 let raw = RawEvent { header: RecordHeader::new_event(GOOD_TS + eid, set_uuid_flag(Self::filler_txid(eid), true)).unwrap(), event_id: event_uuid(eid).into_bytes(),
@@ -265,7 +266,22 @@ impl Runner {
                     let evs: Vec<_> = c.evs.iter().enumerate().map(|(i, e)| ("t", "E", payload(eid0 + i as u64, e.plen, e.kind), eid0 + i as u64)).collect();
                     let r = w.append(evs, txid, false).await;
                     out.push(format!("a{}={}", attempt, r.show(base)));
-                    if matches!(r, Res::Ok(..)) { self.ver_t += c.evs.len() as u64; break; }
+                    if matches!(r, Res::Ok(..)) {
+                        self.ver_t += c.evs.len() as u64;
+                        // the acknowledged events are stored intact
+                        let mut bad = None;
+                        for (i, e) in c.evs.iter().enumerate() {
+                            let eid = eid0 + i as u64;
+                            match tokio::time::timeout(Duration::from_secs(30), w.db.read_event(PID, event_uuid(eid))).await {
+                                Ok(Ok(Some(rec))) => if rec.payload != payload(eid, e.plen, e.kind) || rec.event_name != "E" || rec.stream_id.as_ref() != "t" || !rec.metadata.is_empty() { bad = Some(format!("e{i}:content")); },
+                                Ok(Ok(None)) => bad = Some(format!("e{i}:none")),
+                                Ok(Err(x)) => bad = Some(format!("e{i}:err:{}", x.to_string().replace(' ', "_"))),
+                                Err(_) => bad = Some(format!("e{i}:TIMEOUT")),
+                            }
+                        }
+                        out.push(match bad { None => "rd=ok".to_string(), Some(b) => format!("rd=BAD:{b}") });
+                        break;
+                    }
                 }
                 let eid = w.next_eid; w.next_eid += 1;
                 let r = w.append(vec![("f", "F", payload(eid, 10, 'c'), eid)], World::filler_txid(eid), false).await;
@@ -358,10 +374,21 @@ fn main() {
     for i in (1..rest.len()).rev() { let j = rng.below(i as u64 + 1) as usize; rest.swap(i, j); }
     rest.truncate(budget.saturating_sub(keep.len()));
     keep.extend(rest);
-    keep.sort_by_key(|c| (c.seg, c.comp));
-    for c in keep {
-        let (cs, obs) = rt.block_on(runner.run_case(c));
-        out.case(&cs, &obs); out.flush();
+    // the database is reused for consecutive cases of one configuration: chunks of 24 cases of one (seg, comp),
+    // chunks in random order, so that a run cut short by the time budget still covers every configuration
+    let mut groups: std::collections::BTreeMap<(usize, bool), Vec<Case>> = std::collections::BTreeMap::new();
+    for c in keep { groups.entry((c.seg, c.comp)).or_default().push(c); }
+    let mut chunks: Vec<Vec<Case>> = Vec::new();
+    for (_, v) in groups { for ch in v.chunks(24) { chunks.push(ch.to_vec()); } }
+    for i in (1..chunks.len()).rev() { let j = rng.below(i as u64 + 1) as usize; chunks.swap(i, j); }
+    let secs: u64 = std::env::var("SV_BUDGET_S").ok().and_then(|x| x.parse().ok()).unwrap_or(if thorough { 840 } else { 75 });
+    let t0 = std::time::Instant::now();
+    'outer: for ch in chunks {
+        for c in ch {
+            if t0.elapsed().as_secs() >= secs { break 'outer; }
+            let (cs, obs) = rt.block_on(runner.run_case(c));
+            out.case(&cs, &obs); out.flush();
+        }
     }
     rt.block_on(runner.finish());
 }
